@@ -2,24 +2,24 @@ SPECIFICATION SSpec
 CONSTANTS
   MaxSlot = 5
   MaxVer = 1
-  MaxReorgs = 1
+  MaxReorgs = 2
   MaxCrashes = 0
   Gates = {"acct"}
   Interleave = FALSE
-  Cfgs <- CfgsSteps
+  Cfgs <- CfgsHistNoSync
   OraclesFor <- SeedOracles
-  MaxAccts = 0
-  AnswersFor <- AllAnswers
+  MaxAccts = 1
+  AnswersFor <- AnswersSome
   Deviation = {}
   ScenLen = 11
   Seeds = {1, 2, 3, 4}
-  StartSlots = {4}
+  StartSlots = {2, 4}
   MaxHeads = 2
-  Stimuli = {"Start", "Advance", "Reorg", "HeadEvent", "Fire", "Hold", "Release"}
-  MaxHolds = 99
-  Focus = TRUE
+  Stimuli = {"Start", "Reorg", "HeadEvent", "Accounts", "Hold", "Release"}
+  MaxHolds = 1
+  Focus = FALSE
   Disjoint = TRUE
-  Tight = FALSE
-INVARIANTS EmitInside
+  Tight = TRUE
+INVARIANTS EmitOverlap
 CONSTRAINT HistBound
 CHECK_DEADLOCK FALSE
